@@ -234,6 +234,7 @@ func Sim(t *testing.T, body func(r *Run)) {
 		if budget > 0 && time.Since(gstats.start) > budget && !gstats.failing {
 			return
 		}
+		ResetCallIndex()
 		r := &Run{T: rt, Prop: Prop(), faults: map[string]*FaultCount{}, counters: map[string]int64{}, cells: map[string]map[string]bool{}}
 		defer r.finish()
 		body(r)
